@@ -83,4 +83,14 @@ def repairDecide (sm : ServerMap) (force haveWritekey : Bool) : RepairDecision :
     else if !haveWritekey then .needWritecap
     else .republish best (newSeqnum (some sm))
 
+/-- `MutableFileNode._get_version_from_servermap`, inner `_get_version(servermap, v)` (`mutable/filenode.py`): the
+    version `download_version` / `get_readable_version` will read from the servermap they end up with (which is a
+    *fresh MODE_READ survey* when the map handed in was made in another mode — e.g. the repairer's MODE_REPAIR
+    map).  `none` = `UnrecoverableFileError("no recoverable versions")`.  A requested version that the map cannot
+    recover is an error; it is never replaced by another version. -/
+def getVersion (sm : ServerMap) (v : Option VerInfo) : Option VerInfo :=
+  match v with
+  | some v => if v ∈ sm.recoverable then some v else none
+  | none => sm.bestRecoverable
+
 end Tahoe.Mutable.Check
